@@ -295,6 +295,14 @@ impl Chain {
 
         let mut prev_block = self.get_genesis()?.ok_or(ChainError::EmptyChain)?;
 
+        // The genesis block is never the `block` of the loop below, so its
+        // transactions would otherwise not be compared with its tx_root.
+        if !prev_block.verify_tx_root() {
+            return Err(ChainError::ValidationFailed(
+                "tx_root does not match transactions".to_string(),
+            ));
+        }
+
         for h in 1..=height {
             let block = self.get_block_at(h)?.ok_or(ChainError::BlockNotFound(h))?;
 
